@@ -14,7 +14,7 @@ LEVEL = ("Abstract interpretation (interval x monotonicity) of DualAverage::adva
          "leapfrog to each running mean on every path, so the statistic is never 0/0 after a leapfrog (R7), and every leapfrog outcome (Ok or Divergence) is registered with the collector exactly once (R8). Numeric identities (weighted average as a number, "
          "bracketing, closed-loop acceptance) are not decided."
          " Added (round 5): outside advance() both iterates of the dual average are written with the same start value (R2 start-value clause); the interpreter forgets what it knows about self's fields at an opaque call on self."
-         " Added (round 6): the step-size settings reach the strategy as the user set them - no clamp, no constant override, no defaulted struct in Settings::new_chain (R11, rules/convert.py); the initial search lies on every path to Ok of AdaptStrategy::init (R12).")
+         " Added (round 6): the step-size settings reach the strategy as the user set them - no clamp, no constant override, no defaulted struct in Settings::new_chain (R11, rules/convert.py); the initial search lies on every path to Ok of AdaptStrategy::init (R12). A diverging trial step of the search is scored (acceptance 0), never a reason to return with the unsearched step (R13; decided F19).")
 EXPLANATION = ("MONO abstract interpreter over the HIR of the advance() bodies with induction over struct fields; FLOW lanes over MIR; "
                "SIB mirror comparison of the search arms; dominance of register_init over each trial leapfrog.")
 TRUSTED = ["rustc nightly HIR/MIR", "nutsfacts extractor", "rules/mono.py, rules/c07.py", "f64 methods sqrt/ln/exp/min/powf are monotone as documented"]
@@ -646,6 +646,49 @@ def r12(F, R):
             R.ok("C07-R12", key, site, "stepsize Strategy::init on every path to Ok (%d call(s), %d Ok site(s))" % (len(inits), len(oks)))
     R.floor("C07-R12", 2)
 
+
+def r13(F, R):
+    R.rule("C07-R13", "a diverging trial step is scored, not fled: in the step-size search (stepsize Strategy::init) no Divergence arm of a trial leapfrog reaches a "
+                      "`return` without passing the acceptance test of that trial (`collector.mean.current()`): the collector records acceptance 0 for a diverging "
+                      "step (R10), so the search goes on with smaller steps. An arm that returns at once leaves the chain with the unsearched initial step whenever "
+                      "the first probe is unstable - for a Gaussian of scale 1e-4 already - and the search does not end with a bracketing step")
+    bs = [b for b in F.bodies.values() if b.kind != "closure" and strip_generics(b.path).endswith("stepsize::adapt::Strategy::init")]
+    if len(bs) != 1:
+        R.missing("C07-R13", "stepsize::adapt::Strategy::init")
+        return
+    b = bs[0]
+    loops = b.natural_loops()
+    in_loop = set().union(*loops.values()) if loops else set()
+    cur = [bb for bb, t in b.calls() if t["callee"].get("name") == "current" and "RunningMean" in strip_generics(t["callee"].get("path", "") + str(t["callee"].get("impl_self_adt") or ""))]
+    leap = [bb for bb, t in b.calls() if t["callee"].get("name") == "leapfrog"]
+    rets = {x for x, blk in enumerate(b.blocks) if blk["term"]["k"] == "return"}
+    n = 0
+    for bi, blk in enumerate(b.blocks):
+        t = blk["term"]
+        if blk["cleanup"] or t["k"] != "switch" or not path_ends(t.get("enum_adt") or "", "hamiltonian::LeapfrogResult"):
+            continue
+        arms = {a.get("name"): a["target"] for a in t["arms"]}
+        if "Divergence" in arms:
+            tgt = arms["Divergence"]
+        elif "Ok" in arms and "Err" in arms:
+            tgt = t["otherwise"]
+        else:
+            continue
+        if "Ok" not in arms and "Divergence" not in arms:
+            continue
+        n += 1
+        which = "loop" if bi in in_loop else "first-probe"
+        key = "%s:divergence-arm:%s" % (b.path, which)
+        sp = [st["span"] for st in b.blocks[tgt]["stmts"] if st.get("span")]
+        site = "%s @%s" % (b.path, loc(sp[0]) if sp else b.loc())
+        if not cur:
+            R.bad("C07-R13", key, site, "no acceptance test (RunningMean::current) in the search")
+        elif rets & b.reach_from(tgt, avoid=cur + leap):
+            R.bad("C07-R13", key, site, "the Divergence arm of the %s trial returns without scoring the step: the search gives up where it should halve" % which)
+        else:
+            R.ok("C07-R13", key, site, "the diverging trial is scored like any other (acceptance 0 -> Backward / stop)")
+    R.floor("C07-R13", 2)
+
 def run(F, R, config="all"):
     r1_r2(F, R)
     r3(F, R)
@@ -655,6 +698,7 @@ def run(F, R, config="all"):
     r8(F, R)
     r10(F, R)
     r12(F, R)
+    r13(F, R)
     # after warmup the step size in use is the averaged one: update_stepsize(.., use_best_guess = true) runs unconditionally (C06-R4 analysis)
     from . import c06
     K.borrow_rule(R, lambda sub: c06.r4(F, sub), "C07-R9", "after warmup adapt() calls update_stepsize(.., true) exactly once and unconditionally, so the step size "
